@@ -346,7 +346,7 @@ def decode_atom(text):
     if mm:
         p = dec_str(mm.group(3))
         return None if p is None else ("atom", ("match", mm.group(1), norm(p)), mm.group(2) == "!=")
-    mm = re.fullmatch(r"_=([-0-9.e+]+)", body)
+    mm = re.fullmatch(r"_ num ([-0-9.e+]+)", body)
     if mm:
         return ("atom", ("eq", "_", mm.group(1)), False)
     return None
@@ -682,20 +682,34 @@ def strop_to_coq(c, r):
     return f"({K}, {cstr(c['s'])}, {copt(dec)})"
 
 REQ = ["Base.Chars", "Model.Backend", "Spec.Target", "Run.C01run"]
+from props.c01_leaf import gen_leaf, leaf_to_coq, stratum_leaf, mutate_leaf, known_leaf
+REQ_LEAF = ["Base.Chars", "Base.Outcome", "Model.SString", "Model.StrOp", "Model.FieldName", "Model.Leaf", "Spec.Atom", "Run.C01leaf"]
 PROPERTY = Property(
     pid="C01", props_file="Props/C01.v",
     suites=[Suite("struct", gen_struct, "run_struct", REQ, "judge_struct", struct_to_coq, known=known_struct,
                   mutate=mutate, py_oracle=py_oracle, stratum=stratum, shard=120),
-            Suite("strop", gen_strop, "run_strop", REQ + ["Model.StrOp", "Spec.Items"], "judge_strop", strop_to_coq)],
+            Suite("strop", gen_strop, "run_strop", REQ + ["Model.StrOp", "Spec.Items"], "judge_strop", strop_to_coq),
+            Suite("leaf", gen_leaf, "run_leaf", REQ_LEAF, "judge_leaf", leaf_to_coq, stratum=stratum_leaf, mutate=mutate_leaf, known=known_leaf,
+                  shard=150)],
     rule="random rules (1-4 detections: maps, lists of maps, keyword lists; strings with wildcards/escapes, numbers, bools, null; "
          "modifiers contains/startswith/endswith/all/cased/re/cidr/exists/windash/base64offset/gt/lte/fieldref/neq/minute; conditions "
          "of depth <= 3 with and/or/not/selectors; 1-2 conditions) x random backend configurations (6 precedence orders, parenthesize, "
          "OR/AND-as-in with/without wildcards, not-equals mode, explicit not-exists, native CIDR, presence of startswith/endswith/contains/"
          "wildcard-match/case-sensitive expressions). non-trivial = condition tree of depth >= 2; distinct by case hash. "
-         "Truth tables over all 2^n assignments of the (<= 9) atoms are compared inside Coq.",
-    assumptions=["leaf rendering (templates, escape_and_quote_field, convert_value_str) is taken from the implementation per leaf and "
-                 "checked by decoding each atom of the final query back to (field, match kind, decoded value) in the harness (props/c01.py "
-                 "decode_atom) - this reader and the reference-semantics builder are trusted Python",
+         "Truth tables over all 2^n assignments of the (<= 9) atoms are compared inside Coq. Suite leaf: field names (quotes, "
+         "escapes, blanks, delimiters, non-ASCII, keywords of the target language) x values of every kind (strings over an "
+         "alphabet with wildcards, escapes, quotes, delimiters, operator characters; numbers; booleans; null; regular expressions "
+         "with flags; CIDR; comparisons; timestamp parts; exists; field references; unbound values) x verification backend flag "
+         "sets incl. pattern-controlled string quoting and overlapping field escape pattern, and the shipped test backend with "
+         "attribute variations; both the normal and the negated-template rendering.",
+    assumptions=["suite struct takes the text of each leaf from the implementation and checks it by decoding each atom of the final "
+                 "query in the harness (props/c01.py decode_atom, trusted Python); the rendering of a leaf itself is modelled "
+                 "(Model/Leaf.v from the exported class attributes) and read back by Spec/Atom.v inside Coq in suite leaf "
+                 "(theorems C01_leaf_faithful, C01_leaf_unbound_faithful, C01_leaf_string_meaning); oracles of the leaf model: match "
+                 "positions of field_escape_pattern, the field_quote_pattern / str_quote_pattern decisions (computed with re in the "
+                 "harness), str() of numbers and networks, Python's \\w on non-ASCII characters",
+                 "leaf suite, not modelled: SigmaQueryExpression values, placeholders inside regular expressions, deferred "
+                 "expressions, in-list rendering of values (the list syntax itself is in Model/Backend.v)",
                  "the reference meaning starts from the detection items after modifier application (modifiers themselves are C03/C04)",
                  "deferred query parts and None arguments (dropped detection items) are outside the model; such cases are skipped and counted"],
 )
